@@ -902,7 +902,17 @@ def _oracle_validate(case):
             if not (got[i] == bool(direct) == bool(pair)):
                 fails.append(_fail("validator-entry-points", "record %d column %s (%s, ignore_aromaticity=%r, ignore_tautomers=%r): validate_smiles %r, "
                                    "check_pair(keywords) %r, direct call %r on %r vs %r" % (i, col, meth, ia, taut, got[i], pair, direct, row[col], row["gt"])))
-            want = _ref_check(dict(m=row[col], t=row["gt"], method=meth, ia=ia)) if taut else None
+            if taut:
+                want = _ref_check(dict(m=row[col], t=row["gt"], method=meth, ia=ia))
+            else:
+                # tautomer path: accepted iff the mapping is equivalent to the mapping of SOME enumerated tautomer of the ground truth
+                # (the enumeration itself is RDKit's: an oracle input; the verdict per tautomer is the independent reference)
+                from synkit.Chem.utils import enumerate_tautomers
+                try:
+                    refs = [_ref_check(dict(m=row[col], t=tt, method=meth, ia=ia)) for tt in (enumerate_tautomers(row["gt"]) or [])]
+                except Exception:
+                    refs = [None]
+                want = None if (not refs or any(r is None for r in refs)) else any(refs)
             if want is not None and got[i] != want:
                 fails.append(_fail("validator-batch", "record %d column %s: result %r, reference %r (%s, ia=%r)" % (i, col, got[i], want, meth, ia)))
     return fails[:3]
